@@ -34,7 +34,7 @@ SIZE_BOUNDS = {
 RULE = {
     "C07": (
         "Hypothesis-generated scripts: period from {0.2,1,1.5,7,60 s}; align_to None / past grid point / past point off the "
-        "period grid / future instant / epoch; creation instant = grid point + {0, 1 us, period/2, period - 1 us} + whole "
+        "period grid / past point with a sub-millisecond phase / future instant / epoch; creation instant = grid point + {0, 1 us, period/2, period - 1 us} + whole "
         "periods; 1-4 series, each added before the start or at a generated virtual time while running; per-tick sink latency "
         "from {0, 0.3, 1, 2.5 periods} on the slow sinks; each series is silent or receives a sample every 0.5 / 1 / 2 / 3 periods "
         "(initial buffer length 1-16, so the input-period estimate and the up-sampling paths are reached); the first resample() awaited {0, 0.5, 3.7} periods late; the driver "
@@ -68,7 +68,7 @@ def strategy(tier: str, pid: str = "C07") -> st.SearchStrategy[Any]:
         }), min_size=1, max_size=4)
     return st.fixed_dictionaries({
         "period_ms": st.sampled_from([200, 1000, 1500, 7000, 60000]),
-        "align": st.sampled_from(["none", "past", "past_off", "future", "epoch"]),
+        "align": st.sampled_from(["none", "past", "past_off", "future", "epoch", "past_us", "past_us2"]),
         "phase": st.sampled_from(["zero", "us", "half", "almost"]),
         "extra_periods": st.integers(1, 5),
         "series": series,
@@ -93,6 +93,9 @@ def run_case(case: Any, pid: str) -> Verdict:
         "past_off": world.T0 - timedelta(days=3) + period * 0.37,
         "future": world.T0 + timedelta(hours=5) + period * 0.11,
         "epoch": EPOCH,
+        # grids with a sub-millisecond phase (every tick then has a microsecond part that is not a whole ms)
+        "past_us": world.T0 - timedelta(days=3) + timedelta(microseconds=250_007),
+        "past_us2": world.T0 - timedelta(days=1) + timedelta(microseconds=512_345),
     }[case["align"]]
     phase = {"zero": timedelta(0), "us": US, "half": period / 2, "almost": period - US}[case["phase"]]
     base = align if align is not None else world.T0
